@@ -14,6 +14,10 @@ pub fn run<S: InterpreterTrait>(interpreter: &mut S) -> Result<(), RuntimeError>
         return Err(RuntimeError::IllegalFunctionCall);
     }
     let f = bytes_to_f64(&bytes);
+    if !f.is_finite() {
+        // the 8 bytes encode an infinity or a NaN: not a value of a DOUBLE
+        return Err(RuntimeError::Overflow);
+    }
     interpreter
         .context_mut()
         .set_built_in_function_result(BuiltInFunction::Cvd, f);
